@@ -29,6 +29,7 @@ VARIANTS = {
     'asan-noguard': ASAN + ['-DCPPUTEST_DISABLE_MEM_CORRUPTION_CHECK', '-DVF_NOGUARD'],
     'tsan':         ['-fsanitize=thread', '-DVF_TSAN'],
     'plain':        [],
+    'cov':          ['-O0', '--coverage', '-DVF_COV'],      # tools/anchor_coverage.py only (never a verdict)
 }
 ASAN_OPTS = 'detect_leaks=0:allocator_may_return_null=1:alloc_dealloc_mismatch=0:exitcode=86:abort_on_error=0:detect_stack_use_after_return=0:max_allocation_size_mb=4096'
 ASAN_NOSIG = ':handle_segv=0:handle_abort=0:handle_sigbus=0:handle_sigill=0:handle_sigfpe=0'
@@ -439,6 +440,9 @@ def run_check(pid, tier, seed, scale=100, jobs=NCPU, replay=None, keep=False):
         only_variant = rp.get('variant')
         scale = rp.get('scale', 100)
     variants = cfg['variants'][tier] if isinstance(cfg['variants'], dict) else cfg['variants']
+    if os.environ.get('VERIF_VARIANT'):
+        variants = [os.environ['VERIF_VARIANT']]
+        scale = scale if scale != 100 else 99      # tooling run: never writes evidence
     if only_variant:
         variants = [only_variant]
     results = []
